@@ -4,7 +4,7 @@ use crate::core::{DynScenario, Tier};
 use crate::scen;
 
 pub fn all_scenarios() -> Vec<Box<dyn DynScenario>> {
-    vec![Box::new(scen::c16::C16), Box::new(scen::c14::C14), Box::new(scen::c02::C02), Box::new(scen::c03::C03), Box::new(scen::c05::C05), Box::new(scen::c06::C06), Box::new(scen::c07::C07), Box::new(scen::c08::C08), Box::new(scen::c09::C09), Box::new(scen::c10::TdScen { mode: 0 }), Box::new(scen::c10::TdScen { mode: 1 }), Box::new(scen::c12::C12), Box::new(scen::c13::C13)]
+    vec![Box::new(scen::c16::C16), Box::new(scen::c14::C14), Box::new(scen::c02::C02), Box::new(scen::c03::C03), Box::new(scen::c05::C05), Box::new(scen::c06::C06), Box::new(scen::c07::C07), Box::new(scen::c08::C08), Box::new(scen::c09::C09), Box::new(scen::c10::TdScen { mode: 0 }), Box::new(scen::c10::TdScen { mode: 1 }), Box::new(scen::c12::C12), Box::new(scen::c13::C13), Box::new(scen::c11::C11)]
 }
 
 pub fn find_scenario(name: &str) -> Option<Box<dyn DynScenario>> {
@@ -164,6 +164,15 @@ pub fn property(id: &str) -> Option<PropSpec> {
             assumptions: vec!["the format transcription of DESIGN.md Appendix A (as for C12)", "abstract states are kept inside what the respective Java/C++ writers can emit (e.g. v4 only for ordered non-empty non-single sketches; set mode only within its load factor)"],
             components_real: vec!["HllSketch::deserialize + HllUnion", "CompactThetaSketch::deserialize_with_seed (v1-v4) + serialize / serialize_compressed", "TDigestMut::deserialize (f64, f32, compat) + rank / quantile / merge / update", "BloomFilter::deserialize", "FrequentItemsSketch<i64|String>::deserialize", "CountMinSketch<T>::deserialize_with_seed"],
             components_stub: vec!["ForeignWriter: independent encoder per family (sim/src/speccodec)", "ForeignReader for the re-serialized images", "abstract-state models"],
+        },
+        "C11" => PropSpec {
+            id: "C11",
+            level: "exploration",
+            parts: vec![p("c11_roundtrip", REL, BOTH)],
+            rule: "one run = one family (HLL sketch, HllUnion aggregator, CPC sketch, CpcUnion aggregator, compact theta, Bloom, Count-Min over the eight counter types, Frequent Items i64/u64/String, t-digest), a primary and a never-crashed twin fed the identical PRNG-drawn history (crafted coupons / row_cols / hashes / weighted items / value streams, merges and unions with peers of other sizes, local operations such as trim, invert, halve, decay, reset), framed checkpoints of the primary (synced or not), crashes at PRNG-chosen points with the unsynced newest generation torn or surviving, restart = newest verifiable generation -> real deserialize -> WAL replay; every run ends with the degenerate checkpoint-crash-restart schedule followed by one more update batch and one more merge. After every operation that follows a restart, at Compare steps and at the end: every public accessor equal bit for bit (estimates, all bounds at 1/2/3 sigma, totals, per-item queries over the domain, rank/quantile grids, contains over the domain, frequent_items), images byte-identical where canonical, equal as decoded state otherwise (Hll4 aux order, list order, Frequent Items item order), CpcWrapper equal to the sketch. Theta takes part in the degenerate form only (compact -> bytes -> compact, both serial forms, delta widths 1..63, byte-identical re-serialization). Non-trivial = a restart happened; distinct = distinct (family, fault kinds, probes) keys.",
+            assumptions: vec!["the harness frame (len|image|crc32) rejects torn checkpoints, so the library only ever restores intact images; the harness WAL is durable", "unions (which have no serialized form) are checkpointed as to_sketch().serialize() and restored by feeding the image to a fresh union; they are compared on the results they hand out, not on HIP history"],
+            components_real: vec!["serialize / deserialize of every family", "all accessors", "update / merge / union paths applied after a restore", "CpcWrapper::new"],
+            components_stub: vec!["framed checkpoint store, write cache, WAL", "crash injector", "never-crashed twin (real library, same history) as the oracle", "independent decoders for non-canonical layouts"],
         },
         _ => return None,
     })
